@@ -75,7 +75,7 @@ func GetKeyFromPassword(passwd string, cname types.PrincipalName, realm string, 
 	if err != nil {
 		return key, et, fmt.Errorf("error getting encryption type: %v", err)
 	}
-	sk2p := et.GetDefaultStringToKeyParams()
+	var sk2p string
 	var salt string
 	var paID int32
 	for _, pa := range pas {
@@ -99,7 +99,7 @@ func GetKeyFromPassword(passwd string, cname types.PrincipalName, realm string, 
 			if len(eti) < 1 {
 				return key, et, errors.New("PA-ETYPE-INFO is empty")
 			}
-			if etypeID != eti[0].EType {
+			if et.GetETypeID() != eti[0].EType {
 				et, err = GetEtype(eti[0].EType)
 				if err != nil {
 					return key, et, fmt.Errorf("error getting encryption type: %v", err)
@@ -119,12 +119,13 @@ func GetKeyFromPassword(passwd string, cname types.PrincipalName, realm string, 
 			if len(et2) < 1 {
 				return key, et, errors.New("PA-ETYPE-INFO2 is empty")
 			}
-			if etypeID != et2[0].EType {
+			if et.GetETypeID() != et2[0].EType {
 				et, err = GetEtype(et2[0].EType)
 				if err != nil {
 					return key, et, fmt.Errorf("error getting encryption type: %v", err)
 				}
 			}
+			sk2p = ""
 			if len(et2[0].S2KParams) == 4 {
 				sk2p = hex.EncodeToString(et2[0].S2KParams)
 			}
@@ -133,6 +134,10 @@ func GetKeyFromPassword(passwd string, cname types.PrincipalName, realm string, 
 	}
 	if salt == "" {
 		salt = cname.GetSalt(realm)
+	}
+	if sk2p == "" {
+		// No parameters were supplied: use the defaults of the etype that will derive the key.
+		sk2p = et.GetDefaultStringToKeyParams()
 	}
 	k, err := et.StringToKey(passwd, salt, sk2p)
 	if err != nil {
